@@ -499,9 +499,9 @@ func gatePar1(w *World, r *Report, probe bool) {
 	// G6
 	if fn := w.Fn("(*par1.Decoder).LoadFileData"); fn != nil {
 		n := 0
-		for _, lit := range fn.AnonFuncs {
+		for _, lit := range region(fn) {
 			for i, ret := range successReturns(lit) {
-				if len(ret.Results) < 1 || isNilConst(ret.Results[0]) {
+				if len(ret.Results) < 2 || isNilConst(ret.Results[0]) || typeStr(ret.Results[0].Type()) != "[]byte" {
 					continue
 				}
 				n++
